@@ -186,7 +186,7 @@ def run_check(prop, tier="quick", seed=0, only=None, jobs=None):
             return {o["name"] for o in res.get("obligations", []) if not o["ok"]}
 
         for (kind, r), f in zip(fn_results, fns):
-            if not r.get("error") and failing(kind, r):
+            if not r.get("error") and failing(kind, r) and not r.get("self_confirmed"):
                 names = failing(kind, r)
                 first = set(names)
                 reruns = 0
